@@ -130,7 +130,9 @@ impl XCompoundSpec {
         }
         let mut ret = binding.clone();
         for (arg, param) in args.iter().zip(self.fields.iter()) {
-            let t = param.type_.resolve_bind(&ret, Some(tail));
+            // every field binds against the declared type, so that a parameter used by several fields gets
+            // the common type of all of them rather than the type of the first
+            let t = param.type_.resolve_bind(binding, Some(tail));
             ret = ret.mix(&t.bind_in_assignment(arg)?)?;
         }
         Some(ret)
